@@ -794,7 +794,8 @@ class LUTInfoType(Serializable, Arrayable):
             self._lut_values = None
             return
         if isinstance(value, (tuple, list)):
-            value = numpy.array(value, dtype=numpy.uint8)
+            value = numpy.array(value)
+            value = value.astype(numpy.uint8 if (value.size == 0 or value.max() < 256) else numpy.uint16)
         if not isinstance(value, numpy.ndarray) or value.dtype.name not in ('uint8', 'uint16'):
             raise ValueError(
                 'LUTValues for class LUTInfoType must be a numpy.ndarray of dtype uint8 or uint16.')
@@ -875,7 +876,7 @@ class LUTInfoType(Serializable, Arrayable):
         lut_key = cls._child_xml_ns_key.get('LUTValues', ns_key)
         lut_nodes = find_children(node, 'LUTValues', xml_ns, lut_key)
         for i, lut_node in enumerate(lut_nodes):
-            arr[:, i] = [str(el) for el in get_node_value(lut_node)]
+            arr[:, i] = [int(el) for el in get_node_value(lut_node).split()]
         if numpy.max(arr) < 256:
             arr = numpy.asarray(arr, dtype=numpy.uint8)
         return cls(LUTValues=arr)
